@@ -15,6 +15,8 @@
 package esc
 
 import (
+	"bytes"
+	"encoding/json"
 	"fmt"
 
 	"github.com/pulumi/esc/schema"
@@ -57,6 +59,15 @@ type Expr struct {
 
 	// The builtin, if this is a call to a builtin function.
 	Builtin *BuiltinExpr `json:"builtin,omitempty"`
+}
+
+// UnmarshalJSON decodes an Expr. Number literals are decoded as json.Number (as they are in Value and Schema) rather
+// than float64, so that they keep their exact text.
+func (x *Expr) UnmarshalJSON(data []byte) error {
+	type rawExpr Expr
+	dec := json.NewDecoder(bytes.NewReader(data))
+	dec.UseNumber()
+	return dec.Decode((*rawExpr)(x))
 }
 
 // An Interpolation holds information about a part of an interpolated string expression.
